@@ -18,7 +18,7 @@ use std::collections::BTreeMap;
 use std::io::Cursor;
 use verif_harness::xlsbw::{BVal, DefinedName, Fmla, Framing, XlsbBook, XlsbSheet};
 use verif_harness::odsw::{OdsBook, OdsCell, OdsSheet, OdsVal, RowRun};
-use verif_harness::xlsw::{Cached, CellV, XlsBook, XlsCell, XlsName, XlsSheet};
+use verif_harness::xlsw::{formula_payload, formula_value, xl_unicode_string, Cached, CellV, XlsBook, XlsCell, XlsName, XlsSheet, FORMULA, STRING};
 use verif_harness::xlsxw::{ev_wire, Layout, XCell, XVal, XlsxBook, XlsxSheet};
 use verif_harness::{driver::Driver, fnv64, guarded, hex, report::Report, rng::Rng, unhex, Args};
 
@@ -1795,16 +1795,110 @@ fn run_file_case(fc: &FileCase, drv: &mut Driver, rep: &mut Report) {
             rep.count("file_xls_substreams_permuted");
             book.substream_order = Some(order);
         }
+        // cells of shared-formula groups that hold the lone PtgExp: (sheet, row, col, model text)
+        let mut members: Vec<(usize, u32, u32, String)> = vec![];
         for (i, name) in fc.ctx.sheets.iter().enumerate() {
             let mut sh = XlsSheet::new(name);
-            for c in cs.iter().filter(|c| c.sh == i) {
+            let mine: Vec<&C> = cs.iter().filter(|c| c.sh == i).collect();
+            // a shared-formula group: a ShrFmla record (its RefU range has one-byte columns) behind the FORMULA
+            // record of its first cell; the range is the bounding box of some of the sheet's formula cells, so
+            // formula cells of the sheet lie inside and outside of it, before and after the record
+            let narrow: Vec<&C> = mine.iter().filter(|c| c.c < 256).cloned().collect();
+            let group: Option<(u32, u32, u32, u32, (u32, u32))> = if !narrow.is_empty() && lrng.chance(1, 2) {
+                let mut sub: Vec<&C> = vec![];
+                for c in &narrow {
+                    if lrng.chance(2, 3) {
+                        sub.push(c);
+                    }
+                }
+                if sub.is_empty() {
+                    sub.push(narrow[0]);
+                }
+                let master = sub.iter().map(|c| (c.r, c.c)).min().unwrap();
+                rep.count("file_xls_shrfmla_record");
+                Some((
+                    sub.iter().map(|c| c.r).min().unwrap(),
+                    sub.iter().map(|c| c.r).max().unwrap() + lrng.below(2) as u32,
+                    sub.iter().map(|c| c.c).min().unwrap(),
+                    (sub.iter().map(|c| c.c).max().unwrap() + lrng.below(2) as u32).min(255),
+                    master,
+                ))
+            } else {
+                None
+            };
+            let inside = |r: u32, c: u32| group.map_or(false, |g| g.0 <= r && r <= g.1.min(65535) && g.2 <= c && c <= g.3);
+            for c in &mine {
                 let cached = match lrng.below(4) {
                     0 => Cached::Num(1.5),
                     1 => Cached::Bool(true),
                     2 => Cached::Err(0x07),
                     _ => Cached::Str("x".into()),
                 };
-                sh.cells.push(XlsCell::new(c.r as u16, c.c as u16, CellV::Formula { rgce: c.xls.clone().unwrap(), cached }));
+                // grbit: the reader reports the tokens whatever the option bits say; fShrFmla (0x0008) stays set on
+                // a cell that was edited out of a shared group and holds its own expression again
+                let mut grbit = 0u16;
+                if lrng.chance(1, 2) {
+                    grbit |= 0x0008;
+                }
+                for bit in [0x0001u16, 0x0002, 0x0020] {
+                    if lrng.chance(1, 5) {
+                        grbit |= bit;
+                    }
+                }
+                rep.count(&format!(
+                    "file_xls_formula.own_expression.{}.{}",
+                    if grbit & 8 != 0 { "fShrFmla" } else { "unflagged" },
+                    if group.is_none() { "no_group" } else if inside(c.r, c.c) { "inside_range" } else { "outside_range" }
+                ));
+                let mut d = formula_payload(c.r as u16, c.c as u16, 0, formula_value(&cached), c.xls.as_ref().unwrap());
+                d[14..16].copy_from_slice(&grbit.to_le_bytes());
+                sh.cells.push(XlsCell { row: c.r as u16, col: c.c as u16, xf: 0, v: CellV::Raw(FORMULA, d) });
+                if let Some(g) = group {
+                    if g.4 == (c.r, c.c) {
+                        // ShrFmla: RefU, reserved, cUse, cce, rgce (here: PtgRefN to the cell above + 1)
+                        let mut d = vec![];
+                        d.extend_from_slice(&(g.0 as u16).to_le_bytes());
+                        d.extend_from_slice(&(g.1.min(65535) as u16).to_le_bytes());
+                        d.extend_from_slice(&[g.2 as u8, g.3 as u8, 0, 2]);
+                        let rg = [0x4Cu8, 0xFF, 0xFF, 0x00, 0xC0, 0x1E, 1, 0, 0x03];
+                        d.extend_from_slice(&(rg.len() as u16).to_le_bytes());
+                        d.extend_from_slice(&rg);
+                        sh.cells.push(XlsCell { row: c.r as u16, col: c.c as u16, xf: 0, v: CellV::Raw(0x04BC, d) });
+                    }
+                }
+                if let Cached::Str(t) = &cached {
+                    let d = xl_unicode_string(t, None, &mut lrng);
+                    sh.cells.push(XlsCell { row: c.r as u16, col: c.c as u16, xf: 0, v: CellV::Raw(STRING, d) });
+                }
+            }
+            // members of a group: FORMULA records whose rgce is the lone PtgExp naming the first cell (flag set, or
+            // cleared by a careless writer), at free positions in and next to the range; their text is empty
+            if let Some(first) = mine.first() {
+                let (r0, r1, c0, c1, master) = group.unwrap_or((first.r, first.r, first.c.min(255), first.c.min(255), (first.r, first.c)));
+                for _ in 0..lrng.below(3) {
+                    let r = (r0 + lrng.below((r1 - r0 + 2) as u64) as u32).min(65535);
+                    let c = (c0 + lrng.below((c1 - c0 + 2) as u64) as u32).min(255);
+                    let taken = mine.iter().any(|m| (m.r == r && (m.c == c || m.c + 40 == c)))
+                        || fc.bad.iter().any(|b| b.0 == i && b.1 == r && b.2 == c)
+                        || members.iter().any(|m| m.0 == i && m.1 == r && m.2 == c);
+                    if taken {
+                        continue;
+                    }
+                    let mut rg = vec![0x01u8];
+                    rg.extend_from_slice(&(master.0 as u16).to_le_bytes());
+                    rg.extend_from_slice(&(master.1 as u16).to_le_bytes());
+                    let m = decode_model(&drv.ask(&format!("xls {} {}", hex(&frame_xls(&rg)), fc.ctx.wire())));
+                    let grbit = if lrng.chance(3, 4) { 0x0008u16 } else { 0 };
+                    rep.count(&format!(
+                        "file_xls_formula.ptgexp.{}.{}",
+                        if grbit != 0 { "fShrFmla" } else { "unflagged" },
+                        if group.is_none() { "no_group" } else if inside(r, c) { "inside_range" } else { "outside_range" }
+                    ));
+                    let mut d = formula_payload(r as u16, c as u16, 0, formula_value(&Cached::Num(3.0)), &rg);
+                    d[14..16].copy_from_slice(&grbit.to_le_bytes());
+                    sh.cells.push(XlsCell { row: r as u16, col: c as u16, xf: 0, v: CellV::Raw(FORMULA, d) });
+                    members.push((i, r, c, strip(&m)));
+                }
             }
             for (bsh, r, c, h) in &fc.bad {
                 if *bsh == i {
@@ -1835,6 +1929,13 @@ fn run_file_case(fc: &FileCase, drv: &mut Driver, rep: &mut Report) {
                     for (bsh, r, c, t) in &bad_txt {
                         if *bsh == i {
                             exp.insert((*r, *c), t.clone());
+                            model.insert((*r, *c), t.clone());
+                        }
+                    }
+                    // a lone PtgExp renders as no text; the cell still belongs to the formula range
+                    for (msh, r, c, t) in &members {
+                        if *msh == i {
+                            exp.insert((*r, *c), String::new());
                             model.insert((*r, *c), t.clone());
                         }
                     }
@@ -2026,7 +2127,7 @@ fn gen_dn(rng: &mut Rng) -> Vec<u8> {
 
 /// formula texts: A1 renderings of random expressions plus texts that need XML escaping / are not ASCII
 fn gen_formula_text(rng: &mut Rng) -> String {
-    const SPECIAL: [&str; 10] = [
+    const SPECIAL: [&str; 12] = [
         "A1&\"<x>\"",
         "IF(A1<=B2,\"a&b\",'Sheet 2'!C3)",
         "1<2",
@@ -2037,6 +2138,8 @@ fn gen_formula_text(rng: &mut Rng) -> String {
         "x",
         "$A$1",
         "T(\"]]>\")",
+        "\"café\"&\"£5\"&\"€\"",
+        "'Données'!A1+\"Ã©\"",
     ];
     if rng.chance(1, 4) {
         return rng.pick(&SPECIAL).to_string();
@@ -2309,20 +2412,39 @@ fn run_xlsx_case(xc: &XlsxCase, drv: &mut Driver, rep: &mut Report, shrunk: &mut
 /// value, `g<hex>[*k]` float with formula, `h<hex>[*k]` / `c<hex>[*k]` the same as a covered cell (hidden under a
 /// merged cell but keeping its content); row word: `<repeat>:<cell>,<cell>…`
 struct OdsCase {
+    /// encoding content.xml declares and is written in (None = UTF-8); the formula texts are the same characters
+    enc: Option<&'static str>,
     rows: Vec<(usize, Vec<String>)>,
+}
+
+fn ods_enc(label: &str) -> Option<&'static str> {
+    match label {
+        "ISO-8859-1" => Some("ISO-8859-1"),
+        "windows-1252" => Some("windows-1252"),
+        "-" => None,
+        x => panic!("unknown encoding {x}"),
+    }
 }
 
 impl OdsCase {
     fn wire(&self) -> String {
         let mut s = String::from("odsf");
+        if let Some(e) = self.enc {
+            s.push_str(&format!(" enc={e}"));
+        }
         for (k, cells) in &self.rows {
             s.push_str(&format!(" {k}:{}", cells.join(",")));
         }
         s
     }
     fn parse(words: &[&str]) -> OdsCase {
+        let (enc, from) = match words.get(1).and_then(|w| w.strip_prefix("enc=")) {
+            Some(l) => (ods_enc(l), 2),
+            None => (None, 1),
+        };
         OdsCase {
-            rows: words[1..]
+            enc,
+            rows: words[from..]
                 .iter()
                 .map(|w| {
                     let (k, cells) = w.split_once(':').unwrap();
@@ -2402,7 +2524,13 @@ fn gen_ods_case(rng: &mut Rng) -> OdsCase {
         }
         rows.push((repeat, cells));
     }
-    OdsCase { rows }
+    // one case in three is written in a single-byte encoding named by the XML declaration
+    let enc = match rng.below(6) {
+        0 => Some("ISO-8859-1"),
+        1 => Some("windows-1252"),
+        _ => None,
+    };
+    OdsCase { enc, rows }
 }
 
 fn ods_case_fails(oc: &OdsCase) -> Vec<Fail> {
@@ -2410,7 +2538,9 @@ fn ods_case_fails(oc: &OdsCase) -> Vec<Fail> {
     let exp: BTreeMap<(u32, u32), String> =
         sheet.grid().iter().filter(|(_, v)| !v.1.is_empty()).map(|(p, v)| ((p.0 as u32, p.1 as u32), v.1.clone())).collect();
     let e = expected_dump(&exp);
-    let bytes = OdsBook::new(vec![sheet]).to_bytes();
+    let mut book = OdsBook::new(vec![sheet]);
+    book.encoding = oc.enc;
+    let bytes = book.to_bytes();
     let mut fails = vec![];
     match guarded(|| Ods::new(Cursor::new(bytes))) {
         Ok(Ok(mut wb)) => {
@@ -2431,18 +2561,24 @@ fn run_ods_case(oc: &OdsCase, rep: &mut Report) {
     let input = oc.wire();
     rep.case(&input, oc.rows.len() >= 2);
     rep.count("ods_file_case");
+    if let Some(e) = oc.enc {
+        rep.count(&format!("ods_declared_encoding.{e}"));
+        if oc.rows.iter().any(|(_, cs)| cs.iter().any(|w| w.len() > 1 && !w.starts_with('_') && unhex(w[1..].split('*').next().unwrap()).iter().any(|b| *b >= 0x80))) {
+            rep.count("ods_declared_encoding.non_ascii_formula");
+        }
+    }
     let fails = ods_case_fails(oc);
     if fails.is_empty() {
         return;
     }
     // shrink: drop rows, then cells
-    let mut cur = OdsCase { rows: oc.rows.clone() };
+    let mut cur = OdsCase { enc: oc.enc, rows: oc.rows.clone() };
     let sig = fails[0].sig.clone();
     let mut progress = true;
     while progress {
         progress = false;
         for i in 0..cur.rows.len() {
-            let mut t = OdsCase { rows: cur.rows.clone() };
+            let mut t = OdsCase { enc: cur.enc, rows: cur.rows.clone() };
             t.rows.remove(i);
             if ods_case_fails(&t).iter().any(|f| f.sig == sig) {
                 cur = t;
@@ -2450,7 +2586,7 @@ fn run_ods_case(oc: &OdsCase, rep: &mut Report) {
                 break;
             }
             for j in 0..cur.rows[i].1.len() {
-                let mut t = OdsCase { rows: cur.rows.clone() };
+                let mut t = OdsCase { enc: cur.enc, rows: cur.rows.clone() };
                 t.rows[i].1.remove(j);
                 if ods_case_fails(&t).iter().any(|f| f.sig == sig) {
                     cur = t;
